@@ -54,4 +54,27 @@ theorem extractAll_providers (e : Expectation) (typed : List Val) (vs : List Val
     congr 2
     rw [List.drop_eq_getElem_cons hi, List.take_succ_cons]
 
+
+/-- `k` successive calls of `m(args)`; `none` as soon as one of them fails the test -/
+def callN (m : String) (args : List Val) : Nat → Mock → Option Mock
+  | 0, mk => some mk
+  | k + 1, mk =>
+    match called mk m args with
+    | some (mk', _) => callN m args k mk'
+    | none => none
+
+theorem consume_matches (e : Expectation) (m : String) (args : List Val) :
+    (consume e).matchesCall m args = e.matchesCall m args := by
+  simp [consume, Expectation.matchesCall]
+
+theorem called_single (e : Expectation) (m : String) (args : List Val) (calls : List (String × List Val))
+    (hm : e.matchesCall m args = true) (hr : e.repeatability > -1) :
+    called ⟨[e], calls⟩ m args = some (⟨[consume e], calls ++ [(m, args)]⟩, e) := by
+  simp [called, findExpected, updateFirst, hm, hr]
+
+theorem called_used_up (e : Expectation) (m : String) (args : List Val) (calls : List (String × List Val))
+    (hr : e.repeatability = -1) : called ⟨[e], calls⟩ m args = none := by
+  simp [called, findExpected, hr]
+
+
 end Mockery.C03
